@@ -310,6 +310,5 @@ SameState(s) == \A i \in 1..Len(s.insts): \A v \in DOMAIN s.insts[i].env:
 \* every file the importer touches lies under the root
 OpensConfined(s) == \A f \in s.opened: f.up = 0 /\ f.path # <<>>
 \* a step writes at most one cell named x (own cells: x of main, of m, of m' are distinct)
-XCells(s) == [i \in 1..Len(s.insts) |-> s.insts[i].env["x"]]
 OneCell(s, t) == Cardinality({i \in 1..Len(s.insts): t.insts[i].env["x"] # s.insts[i].env["x"]}) <= 1
 =============================================================================
